@@ -7,6 +7,7 @@
 -/
 import ExoModel.Wire
 import ExoModel.RwCheck
+import ExoModel.AlphaEq
 import ExoModel.Wf
 open Lean Exo Exo.Wire
 
@@ -112,7 +113,7 @@ def handle (line : String) : Json :=
             | t => throw s!"bad path step {t}")
           let k ← nat (← fld j "k")
           let flag ← Wire.bool (← fld j "flag")
-          match Exo.Rw.check name path k flag before.body after.body with
+          match Exo.Rw.check' name path k flag before.body after.body with
           | .ok _ => pure (Json.mkObj [("match", .bool true)])
           | .error e => pure (Json.mkObj [("match", .bool false), ("why", .str e)])
       | _ => throw s!"unknown op {op}" : P Json) with
